@@ -120,6 +120,34 @@ def _cmp(ck, clause, hand, ad, desc, extra=None, tol=1e-12):
     return ok
 
 
+def _optional_arguments(ck, desc, clause, parent, hand_fn, args_parent, args_hand, wrt):
+    """Drive every numeric optional argument that BOTH functions of a pair accept, at values around its
+    default; the hand-coded derivative must still be the dual part of the parent there."""
+    import inspect
+
+    sp, sh = inspect.signature(parent).parameters, inspect.signature(hand_fn).parameters
+    extra = [n for i, n in enumerate(sp) if i >= len(args_parent) and n in sh and isinstance(sp[n].default, (int, float)) and not isinstance(sp[n].default, bool)]
+    only_parent = [n for i, n in enumerate(sp) if i >= len(args_parent) and n not in sh]
+    if only_parent:
+        ck.count("optional_arguments_the_derivative_does_not_accept", len(only_parent))
+    for n in extra:
+        d = float(sp[n].default)
+        vals = [0.5, 3.0, 12.0, 26.0] if d == 0 else [0.5 * d, 0.9 * d, 1.1 * d, 2.0 * d]
+        for v in vals:
+            try:
+                with np.errstate(all="ignore"):
+                    _, ad = derivative(lambda x: parent(*[x if k == wrt else a for k, a in enumerate(args_parent)], **{n: v}), args_parent[wrt])
+                    hand = float(hand_fn(*args_hand, **{n: v}))
+            except Exception as e:  # noqa: BLE001
+                ck.count(f"optional_argument_raised.{type(e).__name__}")
+                continue
+            if not (np.isfinite(ad) and np.isfinite(hand)):
+                ck.count("optional_argument_non_finite")
+                continue
+            ck.count("optional_argument_values_checked")
+            _cmp(ck, clause + " (optional argument found in the signature)", hand, ad, desc, {"argument": n, "value": v, "default": d})
+
+
 def run_case(ck, desc):
     from bluebonnet.fluids import gas, oil, water
 
@@ -244,6 +272,11 @@ def run_case(ck, desc):
                 rs2 = float(oil.solution_gor_Standing(T, p, api, gg, gor))
                 want2 = (bg2 - float(oil.db_o_dgor_Standing(T, api, gg, rs2))) * float(oil.dgor_dpressure_Standing(T, p, api, gg, gor)) / float(oil.b_o_bubblepoint_Standing(T, api, gg, gor))
                 _cmp(ck, "co==(Bg-dBo/dRs)*dRs/dp/Bob (caller's standard conditions)", c2, want2, desc, {"p": p, "standard_conditions": [Tstd, pstd]}, tol=1e-11)
+    # (f) "at every input": numeric arguments the pairs accept beyond the ones driven above, found in their
+    #     signatures at run time (an optional correction added to a parent and to its derivative alike)
+    _optional_arguments(ck, desc, "d(Bw)/dp", water.b_water_McCain, water.b_water_McCain_dp, [Tw, pw], [Tw, pw], 1)
+    _optional_arguments(ck, desc, "d(Rs)/dp", oil.solution_gor_Standing, oil.dgor_dpressure_Standing, [T, p, api, gg, gor], [T, p, api, gg, gor], 1)
+    _optional_arguments(ck, desc, "d(Bob)/d(Rs)", oil.b_o_bubblepoint_Standing, oil.db_o_dgor_Standing, [T, api, gg, r], [T, api, gg, r], 3)
     ck.count("states")
     return nonzero > 0, {"p": p, "pb": pb, "where": desc["where"], "nonzero_dual_parts": int(nonzero)}
 
